@@ -382,7 +382,24 @@ class PinMonitor(Base):
         self.solver = solver
         self.geo = MeshGeo(solver.device.mesh)
         ti = solver.device.terminal_info()
-        self.tsites = np.unique(np.concatenate([np.asarray(t.site_indices, dtype=int) for t in ti])) if ti else np.array([], dtype=int)
+        theirs = np.unique(np.concatenate([np.asarray(t.site_indices, dtype=int) for t in ti])) if ti else np.array([], dtype=int)
+        # terminal sites determined independently: boundary sites of the mesh in use (sites of edges that belong
+        # to exactly one triangle) that lie inside a terminal polygon (winding number)
+        g = self.geo
+        bsites = np.unique(g.edges[g.bidx].ravel())
+        xi = solver.device.layer.coherence_length
+        mine, ambiguous = [], False
+        for term in solver.device.terminals:
+            wn, dist = geom.winding_number(xi * g.sites[bsites], term.points)
+            mine.append(bsites[wn != 0])
+            ambiguous = ambiguous or bool(np.any(dist < 1e-9 * xi))
+        mine = np.unique(np.concatenate(mine)) if mine else np.array([], dtype=int)
+        self.count("terminal_site_membership_checks")
+        if not ambiguous and not np.array_equal(mine, theirs):
+            self.viol("terminal_sites_inconsistent_with_mesh", "terminal_info_inconsistent_with_mesh",
+                      {"sites_inside_polygons": int(len(mine)), "sites_in_terminal_info": int(len(theirs)),
+                       "only_in_terminal_info": np.setdiff1d(theirs, mine)[:5].tolist(), "only_inside_polygons": np.setdiff1d(mine, theirs)[:5].tolist()})
+        self.tsites = mine if not ambiguous else theirs
         self.tpsi = solver.options.terminal_psi
         self.free = np.ones(self.geo.n, dtype=bool)
         if self.tpsi is not None:
